@@ -98,7 +98,10 @@ class Family:
                 for n in walk_own(f.node):
                     if isinstance(n, ast.Compare):
                         parts = [n.left] + list(n.comparators)
-                        has_pid = any(is_call_to(P, f, x, "os.getpid") for x in parts)
+                        pid_locals = {a_.targets[0].id for a_ in walk_own(f.node) if isinstance(a_, ast.Assign)
+                                      and isinstance(a_.targets[0], ast.Name) and is_call_to(P, f, a_.value, "os.getpid")}
+                        has_pid = any(is_call_to(P, f, x, "os.getpid") or (isinstance(x, ast.Name) and x.id in pid_locals)
+                                      for x in parts)
                         has_fld = any(dotted(x) == (f.self_name, pid) for x in parts)
                         if has_pid and has_fld and P.resolve(c, f.name) is f:
                             helper = f
@@ -181,7 +184,7 @@ class _ConstField(Client):
 
 
 # ---------------------------------------------------------------------- C11.R2 / C18.R1 product typestate
-U, OWNED, POS = "UNKNOWN", "OWNED", "POSITIONED"
+U, OWNED, POS, LOST = "UNKNOWN", "OWNED", "POSITIONED", "LOST-BY-REOPEN"
 
 
 class HandleTypestate(Client):
@@ -231,7 +234,8 @@ class HandleTypestate(Client):
         if kind == "yield":
             return ((U, U),)
         if kind == "reopen":
-            return ((OWNED, cursor if owner == OWNED else U),)
+            # a handle re-opened in a new process stands at offset 0: the position is lost ("R")
+            return ((OWNED, cursor if owner == OWNED else LOST),)
         if kind in ("seek", "read"):
             self.sites.add((ctx.func.short, node.lineno))
             chain = ctx.chain
@@ -241,6 +245,8 @@ class HandleTypestate(Client):
                 return ((owner, POS),)
             if cursor != POS:
                 self._find("cursor", kind, node, ctx, chain)
+            if cursor == LOST:
+                self._find("lost", kind, node, ctx, chain)
             # after a read the cursor stands at the next *physical* line, which is the next *indexed* line only for a
             # complete in-order index: the next read needs its own seek
             return ((owner, U),)
